@@ -86,6 +86,10 @@ fix_error:
 
 func fix_error(json string, pos int, err error) error {
 	if e, ok := err.(SyntaxError); ok {
+		/* the parser works on a padded copy: an error inside the padding is an error at the end of the input */
+		if int(e.Pos)+pos > len(json) {
+			e.Pos = len(json) - pos
+		}
 		return SyntaxError{
 			Pos: int(e.Pos) + pos,
 			Src: json,
